@@ -32,7 +32,7 @@ ASSUMPTIONS = [
 ]
 TIERS = {
     "quick": {"shards": 16, "cases": 1600, "ops": 40, "timeout": 300},
-    "thorough": {"shards": 16, "cases": 80000, "ops": 50, "timeout": 3000},
+    "thorough": {"shards": 16, "cases": 200000, "ops": 50, "timeout": 3000},
 }
 FLOORS = {
     "quick": {"counts": {"mapping_comparisons": 150000, "named_restores": 2000, "context_exits": 2500,
